@@ -1093,6 +1093,12 @@ func (c *Conn) Read(b []byte) (int, error) {
 		if err := c.readRecord(); err != nil {
 			return 0, err
 		}
+		// 握手完成后收到的握手消息（重协商请求）不被支持。若不处理，c.hand 会随对端
+		// 发送的握手记录无限增长；这里拒绝重协商并终止连接。
+		if c.hand.Len() > 0 {
+			c.hand.Reset()
+			return 0, c.in.setErrorLocked(c.sendAlert(alertNoRenegotiation))
+		}
 	}
 	n, _ := c.input.Read(b)
 
